@@ -161,14 +161,18 @@ def run (ctx):
     for h in ca:
       # inside the handler, for a non-listener connection: close + remove, and the outer loop continues (no break)
       env = q.Env({'con is listener': False, 'sys.exc_info()[0] is socket.error': False, 'do_break': False})
-      r = q.reach_under_cp(repo, run_.module, g, env, task, start=h)
+      # within the current iteration of the task's main loop (a `break` met after coming round to the loop head again is
+      # the loop's own exit test, not the handler's doing)
+      heads = [hd for (s_, hd, a_) in g.loop_nodes if isinstance(s_, ast.While) and n in g.loop_body_nodes(hd)]
+      r = set()
+      for p_, e_ in q.paths_under(repo, run_.module, g, env, h, heads + [g.exit, g.raise_exit] + [x for x in g.nodes if x.kind == 'raise_stmt'], task, limit=400): r.update(p_)
       closes = [x for x in r if any(call_name(c) == 'close' for c in q.node_calls(x))]
       brk = [x for x in r if x.kind == 'break']
       ctx.ob('R-CONTAIN', run_, "a failing connection is closed and the accept/read loop goes on", bool(closes) and not brk,
              "close reachable, break unreachable for a non-listener socket" if closes and not brk else
              "for an ordinary connection the exception handler %s" % ("leaves the OpenFlow loop (break): every other connection stops being served" if brk else "does not close the connection"), (run_.module, h.ast), 'D2')
     # the try is inside the outer `while core.running` so the loop continues
-    outer = [(s_, hh, a) for (s_, hh, a) in g.loop_nodes if isinstance(s_, ast.While) and 'core.running' in norm(s_.test)]
+    outer = [(s_, hh, a) for (s_, hh, a) in g.loop_nodes if isinstance(s_, ast.While) and n in g.loop_body_nodes(hh)]
     inloop = bool(outer) and all(any(x is t for x in ast.walk(outer[0][0])) for t in g.try_of[n][-1:])
     ctx.ob('R-CONTAIN', run_, "the containing try sits inside the task's main loop", inloop, "try inside `while core.running`" if inloop else "an exception leaves the main loop", (run_.module, n.ast), 'D2')
   f = repo.func('openflow.of_01:Connection.read'); L = framing.find_loop(repo, f); g = L.g
@@ -198,6 +202,32 @@ def run (ctx):
       cl = [x for x in r if any(call_name(c) == 'close' for c in q.node_calls(x))]
       dis = [x for x in r if any(call_name(c) == 'discard' for c in q.node_calls(x))]
       ctx.ob('R-CONTAIN', dr, "the failing worker is closed and dropped from the loop", bool(cl) and bool(dis), "close(); loop._workers.discard(self)" if cl and dis else "handler does not close/drop the worker", (dr.module, h.ast), 'D3')
+  # the failure of the receive handler must actually reach that catch-all: between _do_recv's try and the handler no
+  # frame may swallow it (a logged-and-ignored decode error leaves the bad bytes at the head of the buffer for good)
+  prd = iow.find_method('_push_receive_data')
+  if prd is not None:
+    ctx.analysed(prd); gp = q.cfg_of(prd)
+    direct = gp.nodes_with_call(lambda c: call_name(c) == '_handle_rx')
+    wrapped = gp.nodes_with_call(lambda c: call_name(c) != '_handle_rx' and any(isinstance(a, ast.Attribute) and a.attr == '_handle_rx' for a in c.args))
+    ctx.floor('receive handler invocation', len(direct) + len(wrapped), 1)
+    for n in wrapped:
+      c = [c for c in q.node_calls(n) if any(isinstance(a, ast.Attribute) and a.attr == '_handle_rx' for a in c.args)][0]
+      callee = iow.module.funcs.get(call_name(c)) or iow.find_method(call_name(c))
+      swallows = False
+      if callee is not None:
+        gc = q.cfg_of(callee)
+        for h in [x for x in gc.nodes if x.kind == 'handler' and (x.ast.type is None or norm(x.ast.type) in ('Exception', 'BaseException'))]:
+          rr = gc.reachable(h, exc=False)
+          if not any(x.kind == 'raise_stmt' for x in rr): swallows = True
+      ctx.ob('R-CONTAIN', prd, "a failing receive handler closes its worker (`%s`)" % norm(c)[:50], not swallows,
+             "exception propagates" if not swallows else
+             "the receive handler is invoked through %s, which catches and ignores every exception: _do_recv's catch-all (close + drop the worker) can no longer be reached, "
+             "so a message whose decoder raises is neither skipped nor is the connection closed - the bad bytes stay at the head of the buffer" % call_name(c), (iow.module, c), 'D3')
+    for n in direct:
+      hs_ = [h for h in gp.handlers_for(n) if h.ast.type is None or norm(h.ast.type) in ('Exception', 'BaseException')]
+      sw = [h for h in hs_ if not any(x.kind == 'raise_stmt' or any(call_name(c) == 'close' for c in q.node_calls(x)) for x in gp.reachable(h, exc=False))]
+      ctx.ob('R-CONTAIN', prd, "a failing receive handler closes its worker", not sw, "no swallowing frame between the handler and _do_recv" if not sw else
+             "_push_receive_data catches the handler's exception and neither re-raises nor closes: the connection is wedged on the bad message", (iow.module, n.ast), 'D3')
   loop = repo.cls(IO, 'RecocoIOLoop'); lr = q.find_method(repo, loop, 'run', 'C10'); ctx.analysed(lr)
   g = q.cfg_of(lr)
   for n in g.nodes_with_call(lambda c: call_name(c) in ('_do_recv', '_do_send', '_do_exception')):
